@@ -8,9 +8,14 @@
      C <id> <kind>
      O <op tokens>
      R <result>                 ok | err:<Cause> | shift:<d> | panic | invalid
-     S <snapshot>               or "S ?" when the harness marks the snapshot as not comparable
+     S <snapshot>               or "S ?" when no snapshot could be taken (after a panic)
      ...
      E
+     END <cases> <steps>        last line of the stream
+   A line "Z d36" before an O line marks a step of finding D36 (two signals of one layout reference an
+   enum that grows: the implementation visits them in Go map order). Such a step is compared with the
+   SET of outcomes the model produces for every visiting order of the referencing signals; the observed
+   result and snapshot must be one of them (the history ends there).
    Output: one "MISMATCH ..." block per disagreeing case (first disagreeing step only),
    "WFB-IMPL-FAIL ..." lines, and a final "CASES n STEPS k MISMATCHES m WFBFAIL w". *)
 module BZ = Z
@@ -196,6 +201,31 @@ let wfb_on_impl (snap : string) : string list =
       end) parts;
   List.rev !bad
 
+(* all permutations of a (short) list *)
+let rec permutations = function
+  | [] -> [[]]
+  | l -> List.concat_map (fun x -> List.map (fun p -> x :: p) (permutations (List.filter (fun y -> y <> x) l))) l
+
+(* the enum whose referencing signals an op visits *)
+let enum_of_op (s : state) = function
+  | OAddValue (e, _) -> Some e
+  | OUpdateIndex (v, _) -> s.vpar v
+  | _ -> None
+
+(* the outcomes (result, snapshot) of an op over every visiting order of the referencing signals *)
+let outcomes (s : state) (o : op) : (string * string) list option =
+  match enum_of_op s o with
+  | None -> Some (let (s', r) = step s o in [(result_s r, snapshot (normalise s'))])
+  | Some e ->
+    let refs = s.erefs e in
+    if List.length refs > 7 then None
+    else
+      Some (List.sort_uniq compare
+              (List.map (fun perm ->
+                   let sp = { s with erefs = (fun e' -> if int_of_nat e' = int_of_nat e then perm else s.erefs e') } in
+                   let (s', r) = step sp o in
+                   (result_s r, snapshot (normalise s'))) (permutations refs)))
+
 let () =
   let ic = open_in Sys.argv.(1) in
   let verbose = Array.length Sys.argv > 2 && Sys.argv.(2) = "-v" in
@@ -203,13 +233,49 @@ let () =
   let st = ref init and case_id = ref "" and case_bad = ref false and step_i = ref 0 in
   let cur_op = ref "" and model_r = ref "" and model_s = ref "" and impl_r = ref "" in
   let ops_so_far = Buffer.create 256 in
+  let zone = ref false and cands = ref [] and zone_steps = ref 0 and zone_uncompared = ref 0 in
+  let end_seen = ref None and olines = ref 0 and clines = ref 0 in
   (try while true do
       let line = input_line ic in
       let n = String.length line in
       if n >= 2 then begin
         let body = if n > 2 then String.sub line 2 (n - 2) else "" in
+        if line.[0] = 'O' then incr olines; if line.[0] = 'C' then incr clines;
         match line.[0] with
-        | 'C' -> incr ncases; st := init; case_id := body; case_bad := false; step_i := 0; Buffer.clear ops_so_far
+        | 'C' -> incr ncases; st := init; case_id := body; case_bad := false; step_i := 0; Buffer.clear ops_so_far; zone := false
+        | 'Z' -> if not !case_bad then zone := true
+        | 'O' when !zone ->
+          if not !case_bad then begin
+            incr nsteps; incr step_i; incr zone_steps; cur_op := body;
+            Buffer.add_string ops_so_far body; Buffer.add_string ops_so_far "; ";
+            (match outcomes !st (parse_op body) with
+             | Some l -> cands := l
+             | None -> incr zone_uncompared; cands := []; case_bad := true);
+            if verbose then Printf.printf "  [%s #%d] %s -> model (finding D36, %d outcome(s) over the visiting orders)\n" !case_id !step_i body (List.length !cands)
+          end
+        | 'R' when !zone ->
+          impl_r := body;
+          if not !case_bad then begin
+            cands := List.filter (fun (r, _) -> r = body) !cands;
+            if !cands = [] then begin
+              case_bad := true; incr bad;
+              if !bad <= 25 then
+                Printf.printf "MISMATCH case=%s step=%d op=[%s] RESULT impl=%s is the result of NO visiting order of the referencing signals in the model (outside finding D36)\n  ops: %s\n" !case_id !step_i !cur_op body (Buffer.contents ops_so_far)
+            end
+          end
+        | 'S' when !zone ->
+          if body <> "?" then begin
+            (match wfb_on_impl body with
+             | [] -> ()
+             | l -> incr wfbfail;
+               if !wfbfail <= 25 then Printf.printf "WFB-IMPL-FAIL case=%s step=%d op=[%s] %s\n" !case_id !step_i !cur_op (String.concat "; " l));
+            if not !case_bad && not (List.exists (fun (_, sn) -> sn = body) !cands) then begin
+              incr bad;
+              if !bad <= 25 then
+                Printf.printf "MISMATCH case=%s step=%d op=[%s] SNAPSHOT (result %s) is the outcome of NO visiting order of the referencing signals in the model (outside finding D36)\n  impl =%s\n  model=%s\n  ops: %s\n" !case_id !step_i !cur_op !impl_r body (String.concat "\n     or " (List.map snd !cands)) (Buffer.contents ops_so_far)
+            end
+          end;
+          case_bad := true   (* the history ends with the zone step *)
         | 'O' ->
           if not !case_bad then begin
             incr nsteps; incr step_i; cur_op := body;
@@ -241,6 +307,12 @@ let () =
             end
           end
         | _ -> ()
-      end
+      end;
+      if n >= 3 && String.sub line 0 3 = "END" then end_seen := Some line
     done with End_of_file -> ());
+  Printf.printf "ZONE-STEPS %d ZONE-UNCOMPARED %d\n" !zone_steps !zone_uncompared;
+  Printf.printf "SEEN %d %d\n" !clines !olines;
+  (match !end_seen with
+   | Some l -> Printf.printf "STREAM %s\n" l
+   | None -> Printf.printf "STREAM TRUNCATED (no END line)\n");
   Printf.printf "CASES %d STEPS %d MISMATCHES %d WFBFAIL %d\n" !ncases !nsteps !bad !wfbfail
